@@ -448,12 +448,12 @@ func r19_7(c *Ctx, rule string) {
 	k := 0
 	eng.Instrs(al, func(in ssa.Instruction) {
 		r, ok := in.(*ssa.Return)
-		if !ok {
-			return
+		if !ok || r.Parent() != al {
+			return // (returns of inlined helpers are not returns of alloc)
 		}
 		k++
 		con := fmt.Sprintf("%s/return#%d", base, k)
-		switch v := r.Results[0].(type) {
+		switch v := eng.Canon(r.Results[0]).(type) {
 		case *ssa.MakeSlice:
 			c.R.Check(v.Len == ssa.Value(n), rule, con+"/length", c.pos(r), "make([]byte, n)", "alloc returns a fresh slice whose length is not n")
 		case *ssa.Slice:
